@@ -2,8 +2,9 @@
    transaction, by an event derived from the switch's own output (legal for the semantics: the outer cell is
    read as of the start of the transaction), the node graph the implementation builds is cyclic, and the
    propagation engine and the specification DISAGREE: the specification updates the outer cell, the engine
-   never reaches it. The refinement theorems (Props/Refine.v) therefore carry the hypothesis `acyclic`, which
-   is exactly the complement of this class. *)
+   never reaches it. The refinement theorems (Props/Refine.v) therefore carry the hypothesis `acyclic_dem`
+   (no cycle through the static dependencies `acyclic` - and the demands of switch_c), which excludes exactly
+   this class. *)
 From Coq Require Import List ZArith Arith.
 Import ListNotations.
 From Sodium Require Import Sodium Engine Net NetRefine.
@@ -22,3 +23,7 @@ Print Assumptions K1_engine_differs_from_spec.
 Example K1_is_the_cyclic_class : ~ acyclic cy_st.
 Proof. exact cy_not_acyclic. Qed.
 Print Assumptions K1_is_the_cyclic_class.
+
+Example K1_excluded_by_refinement_hypothesis : forall inj, ~ acyclic_dem cy_st inj.
+Proof. intros inj H. exact (cy_not_acyclic (acyclic_dem_acyclic cy_st inj H)). Qed.
+Print Assumptions K1_excluded_by_refinement_hypothesis.
